@@ -356,11 +356,11 @@ class Ctx:
 
     def write_evidence(self, nviol):
         n_thm = len(self.theorems)
-        obligations = n_thm + len(self.streams) + len([b for b in self.broken if b.startswith('theorem:') or b.startswith('build:')])
-        discharged = n_thm + len([s for s in self.streams if not any(f['kind'] == 'correspondence' and f['payload'].get('stream') == s
-                                                                      and f['signature'] not in self.known for f in self.failures)])
-        if self.broken:
-            discharged = min(discharged, obligations - len(self.broken))
+        # obligations = theorems of the property file (each audited) + one per correspondence stream + whatever broke
+        unknown = [f for f in self.failures if f['signature'] not in self.known]
+        bad_streams = {f['payload'].get('stream') or '?' for f in unknown}
+        obligations = n_thm + len(self.streams) + len(self.broken)
+        discharged = max(0, n_thm + len(self.streams) - min(len(bad_streams), len(self.streams)))
         ev = dict(
             property_id=self.prop, tier=self.tier, seed=self.seed, level='proof',
             coverage=dict(
